@@ -157,6 +157,24 @@ def check_branches(chk, it, tabs):
         chk.expect(str(MARK) in text and t.ignore_after == 0, 'R03.3', 'end-revives[h=%d]' % h,
                    'code after the end of the block is missing (ignore mode not left): %r' % text, 'wasmCWriteBlockExpr:ignore-reset')
         chk.expect(t.stack_after == fill, 'R03.3', 'dead-stack-untouched[h=%d]' % h, 'stack after is %r' % (t.stack_after,), 'wasmCWriteFunctionCode:br')
+    # an else arm is live even when the then arm ended in an unconditional transfer (and vice versa)
+    for name, tail in (('br', ('br', {'imm0': 1})), ('return', 'return'), ('unreachable', 'unreachable')):
+        toks = script(('block', {'imm0': oracle.BLOCKTYPE_VOID}), const('i32', 1), ('if', {'imm0': V['i32']}), const('i32', 111), tail, 'else',
+                      const('i32', MARK), 'end', 'drop', 'end')
+        t = one(chk, run_script(it, toks, ['i64'], labels=[(0, 0, None)]), 'if-dead-then-' + name)
+        text = t.text()
+        m = re.search(r'else\s*\{[^}]*%d' % MARK, text)
+        chk.expect(m is not None, 'R03.3', 'else-live-after-dead-then:' + name,
+                   'the then-arm ends in %s; the else-arm (reachable when the condition is 0) must still be emitted, got %r' % (name, text),
+                   'wasmCWriteIfExpr:ignore-reset')
+        chk.expect(t.stack_after == ['i64'] and t.ignore_after == 0, 'R03.3', 'if-dead-then-stack:' + name,
+                   'after the if/else the stack is %r, ignore=%r' % (t.stack_after, t.ignore_after), 'wasmCWriteIfExpr:ignore-reset')
+        toks = script(('block', {'imm0': oracle.BLOCKTYPE_VOID}), const('i32', 1), ('if', {'imm0': V['i32']}), const('i32', MARK), 'else', const('i32', 222),
+                      tail, 'end', 'drop', const('i32', 333), 'drop', 'end')
+        t = one(chk, run_script(it, toks, ['i64'], labels=[(0, 0, None)]), 'if-dead-else-' + name)
+        chk.expect('333' in t.text() and t.ignore_after == 0, 'R03.3', 'code-after-if-live:' + name,
+                   'the else-arm ends in %s but the then-arm falls through: code after the if must be emitted, got %r' % (name, t.text()),
+                   'wasmCWriteIfExpr:ignore-reset')
     # each unconditional transfer enters ignore mode
     for name, toks, stack in (('br', script(('br', {'imm0': 0})), ['i64']),
                               ('return', script('return'), ['i64']),
